@@ -39,7 +39,8 @@ fn install_panic_hook() {
     no_core_dumps();
     std::panic::set_hook(Box::new(|info| {
         let s = info.to_string();
-        if let Ok(mut g) = PANIC_INFO.lock() { *g = Some(s.chars().take(300).collect()); }
+        // the first panic is the cause (a scope re-panics when joining a panicked thread)
+        if let Ok(mut g) = PANIC_INFO.lock() { if g.is_none() { *g = Some(s.chars().take(300).collect()); } }
     }));
 }
 
